@@ -175,12 +175,19 @@ class RequestHandler:
                         print(formatExtendedTraceback(sys.exc_info()))
                         print('====================')
 
-                if not result:
-                    self.log.error('empty result upon msg %s', repr(msg))
-                if result[0].startswith(ERRORPREFIX) and not detailed_errors:
-                    # strip extra information
-                    result[2][2].clear()
-                self.send_reply(result)
+                try:
+                    if not result:
+                        raise ValueError(f'empty result {result!r}')
+                    if result[0].startswith(ERRORPREFIX) and not detailed_errors:
+                        # strip extra information
+                        result[2][2].clear()
+                    self.send_reply(result)
+                except Exception as err:
+                    # a result which can not be sent: the request has to be
+                    # answered anyway and the connection must stay alive
+                    self.log.error('bad result upon msg %r: %r', msg, err)
+                    self.send_reply((ERRORPREFIX + msg[0], msg[1],
+                                     ['InternalError', f'bad result: {err!r}', {}]))
 
     def handle_help(self):
         for idx, line in enumerate(HelpMessage.splitlines()):
